@@ -434,6 +434,7 @@ func (c *consumerGroup) handleError(err error, topic string, partition int32) {
 	default:
 	}
 
+	verifHook("group.handleError.mid")
 	select {
 	case c.errors <- err:
 	default:
@@ -699,6 +700,7 @@ func (s *consumerGroupSession) consume(topic string, partition int32) {
 }
 
 func (s *consumerGroupSession) release(withCleanup bool) (err error) {
+	verifHook("group.release")
 	// signal release, stop heartbeat
 	s.cancel()
 
